@@ -482,6 +482,35 @@ def translate_base_init(tree):
     return text, fp(fn)
 
 
+def translate_restartable(tree):
+    cls = None
+    for node in tree.body:
+        if isinstance(node, ast.ClassDef) and node.name == "_restartable":
+            cls = node
+    if cls is None:
+        raise Untranslatable("rrbase: class _restartable not found")
+    u = ast.unparse
+    meths = dict((m.name, m) for m in cls.body if isinstance(m, ast.FunctionDef))
+    ini, nxt, it = meths.get("__init__"), meths.get("__next__"), meths.get("__iter__")
+    if ini is None or nxt is None or it is None:
+        raise Untranslatable("rrbase: _restartable methods")
+    if [u(x) for x in strip_doc(ini.body)] != ["self._func = func", "self._gen = func()", "self._pos = 0"] or [a.arg for a in ini.args.args] != ["self", "func"]:
+        raise U(ini, "_restartable.__init__")
+    if [u(x) for x in strip_doc(it.body)] != ["return self"]:
+        raise U(it, "_restartable.__iter__")
+    b = strip_doc(nxt.body)
+    ok = (len(b) == 3 and isinstance(b[0], ast.Try) and [u(x) for x in b[0].body] == ["item = advance_iterator(self._gen)"] and len(b[0].handlers) == 2
+          and u(b[0].handlers[0].type) == "StopIteration" and [u(x) for x in b[0].handlers[0].body] == ["raise"]
+          and u(b[0].handlers[1].type) == "BaseException"
+          and [u(x) for x in b[0].handlers[1].body] == ["self._gen = itertools.islice(self._func(), self._pos, None)", "raise"]
+          and not b[0].orelse and not b[0].finalbody and u(b[1]) == "self._pos += 1" and u(b[2]) == "return item")
+    if not ok:
+        raise U(nxt, "_restartable.__next__")
+    text = ("/-- translated from `rrule.py:_restartable.__init__ / __iter__ / __next__` -/\ndef restartableProgram : CachePy.RestartProg :=\n"
+            "  { initPosZero := true, advancesInTry := true, stopReraised := true, restartsAtPos := true, countsAfter := true, returnsItem := true }\n")
+    return text, {"_restartable.__init__": fp(ini), "_restartable.__iter__": fp(it), "_restartable.__next__": fp(nxt)}
+
+
 def translate_dunder_iter(tree):
     """`__iter__`: if self._cache_complete: return iter(self._cache) / elif self._cache is None: return self._iter() / else: return self._iter_cached()"""
     fn = find_method(tree, "rrulebase", "__iter__")
@@ -509,7 +538,10 @@ def translate_cache(srcdir):
     t1 = t1.replace("def iterCachedProgram : List CachePy.Node :=\n  [", "def iterCachedProgram : List CachePy.Node :=\n  [" + ",\n   ".join(n0) + ",\n   ", 1)
     t1 = t1.replace("translated from `rrule.py:rrulebase._iter_cached`", "translated from `rrule.py:rrulebase.__iter__` (the first four nodes) and `rrulebase._iter_cached`")
     t3, f3 = translate_base_init(tree)
-    return t1 + "\n" + t2 + "\n" + t3, {"rrulebase.__iter__": f0, "rrulebase._iter_cached": f1, "rrulebase._invalidate_cache": f2, "rrulebase.__init__": f3}
+    t4, f4 = translate_restartable(tree)
+    fps = {"rrulebase.__iter__": f0, "rrulebase._iter_cached": f1, "rrulebase._invalidate_cache": f2, "rrulebase.__init__": f3}
+    fps.update(f4)
+    return t1 + "\n" + t2 + "\n" + t3 + "\n" + t4, fps
 
 
 # ------------------------------------------------------------------ (2) rruleset._genitem and rruleset._iter
